@@ -33,7 +33,58 @@ def run(prog, an, rep):
     rep.run_rules(prog, an, [branch_once, pr_once, pr_matching,
                              parent_id_round_trip, name_builders,
                              redirects, declined_cleanup,
-                             declined_before_other_exits, merge_cleanup])
+                             declined_before_other_exits, merge_cleanup,
+                             tip_index])
+
+
+def tip_index(prog, an, rep):
+    """An event on a commit is handled as an event on the pull request of
+    every branch whose tip it is: the index tip -> branches grows by one
+    branch at a time (`index[sha].add(branch)`), it is never written a
+    whole entry at a time (`index[sha] = {branch}`, `index.update(...)`),
+    which would keep the last branch listed for a commit and lose the
+    others."""
+    R = 'C19.WMC.tip-index'
+    k = prog.cls('bert_e.lib.git.Repository')
+    adds = 0
+    for f in k.methods.values():
+        for n in walk_local(f.node, include_root=False):
+            if isinstance(n, ast.Assign):
+                for t in n.targets:
+                    if src(t) == 'self._remote_heads':
+                        rep.evaluated()
+                        v = ' '.join(src(n.value).split())
+                        rep.check(v in ('defaultdict(set)',
+                                        'collections.defaultdict(set)'), R,
+                                  f.qname + ': the index starts empty, with '
+                                  'set entries', f.where(n),
+                                  'self._remote_heads = %s' % v)
+                    if isinstance(t, ast.Subscript) and \
+                            src(t.value) == 'self._remote_heads':
+                        rep.evaluated()
+                        rep.violation(R, f.qname + ': entries grow, they '
+                                      'are not replaced', f.where(n),
+                                      'the branches of a commit are '
+                                      'replaced (%s): a commit that is the '
+                                      'tip of several branches keeps one' %
+                                      src(n)[:60])
+            if isinstance(n, ast.Call) and \
+                    isinstance(n.func, ast.Attribute):
+                recv = n.func.value
+                if src(recv) == 'self._remote_heads' and \
+                        n.func.attr in ('update', 'setdefault', 'pop',
+                                        '__setitem__', 'clear'):
+                    rep.evaluated()
+                    rep.violation(R, f.qname + ': entries grow, they are '
+                                  'not replaced', f.where(n), 'the index '
+                                  'is written with .%s(): a commit that is '
+                                  'the tip of several branches keeps one' %
+                                  n.func.attr)
+                if isinstance(recv, ast.Subscript) and \
+                        src(recv.value) == 'self._remote_heads' and \
+                        n.func.attr == 'add':
+                    adds += 1
+    rep.floor('C19 tip index: index[sha].add(branch) sites', adds, 1)
 
 
 def branch_once(prog, an, rep):
